@@ -244,7 +244,10 @@ FrTextCliId(k, i) == LET p == FrPolSources[k].pols[i] IN IF p.ann # <<>> THEN p.
 FrTextLoads(k) == IF FrPolSources[k].shape \in {"concat", "concatT"} THEN FrPolSources[k].cli ELSE FrPolSources[k].text
 FrontTranslatePolicyCli(k, dir) ==
   IF dir = "cedar-to-json" THEN (IF FrTextLoads(k) THEN 0 ELSE 1)
-  ELSE IF FrPolSources[k].pols # <<>> /\ \A p \in FrPolsOf(k) : ~FrIsLinked(p) THEN 0 ELSE 1
+  ELSE IF FrPolSources[k].pols = <<>> THEN 1
+  ELSE IF \A p \in FrPolsOf(k) : ~FrIsLinked(p) THEN 0
+  ELSE 9   \* links: PolicySet::to_cedar is documented to refuse them but prints JSON-origin links in a non-Cedar form; C19 only
+           \* asks that the CLI reflects that API answer, so the exit status is tied to the recorded API result (Trace_Front)
 \* the JSON form of a policy of the world (its @id annotation included)
 FrEstOfWorldPol(p) == FrEstDoc(FrConvShape(p))
 
